@@ -5,6 +5,9 @@ func init() {
 		ID:    "C09",
 		Title: "Downstream failures are contained and reported, never masked",
 		Kernels: []Kernel{
+			{Name: "upload-answers", Pkg: "queryer", Files: []string{"queryer/c09.go"}, Entry: "VerifUploadAnswers", Mode: "seq",
+				Reach:     []string{"upload failure signal", "upload answer accepted"},
+				Functions: []string{"queryer.(*MultiOpQueryer).queryBatch", "queryer.(*MultiOpQueryer).fetchFile", "queryer.prepareMultipart", "queryer.(*MultiOpQueryer).sendMultipartRequest", "queryer.(*MultiOpQueryer).sendRequest"}},
 			{Name: "downstream-answers", Pkg: "queryer", Files: []string{"queryer/c09.go"}, Entry: "VerifDownstreamAnswers", Mode: "seq", Native: true,
 				Quick: map[string]int{"nmax": 2}, Thorough: map[string]int{"nmax": 3},
 				Reach:     []string{"failure signal", "answer accepted"},
